@@ -27,6 +27,7 @@ def damaged_workspaces(rng, n):
         if k == 8:
             if i % 20 == 18:
                 out.append(Ws(half_typed_workspace(rng), "half-typed"))
+                out.append(Ws(labelled_workspace(rng), "labels-across-modules"))
                 continue
             out.append(Ws(ill_typed_workspace(rng), "ill-typed"))
             continue
@@ -168,6 +169,23 @@ def half_typed_workspace(rng):
         files.append((f"/w/p/src/m{m}.gleam", "\n\n".join(parts) + rng.choice(["", "\n", " "])))
     files.append(("/w/p/gleam.toml", 'name = "p"\n'))
     return files
+
+
+def labelled_workspace(rng):
+    """everything that carries a label, declared in one module and used from another (and from itself): labelled parameters
+    and arguments in any order, record fields in constructors, patterns, updates and accesses, labels spelled like locals,
+    shorthand labels - a cursor on a LABEL is a cursor like any other"""
+    l1, l2 = rng.sample(["width", "height", "depth", "name", "of"], 2)
+    shapes = (f"pub type Rect {{\n  Rect({l1}: Int, {l2}: Int)\n  Square({l1}: Int)\n}}\n\n"
+              f"pub fn area({l1} w: Int, {l2} h: Int) {{\n  w * h\n}}\n\n"
+              f"pub fn grow(r: Rect, by {l1}: Int) {{\n  Rect(..r, {l1}: r.{l1} + {l1})\n}}\n\n"
+              f"pub fn own() {{\n  area({l2}: 1, {l1}: 2) + area(1, {l2}: 2)\n}}\n")
+    app = (rng.choice(["import shapes\n", "import shapes.{area, Rect, Square}\nimport shapes\n", "import shapes as sh\nimport shapes\n"])
+           + f"\npub fn main() {{\n  let {l1} = 3\n  let a = shapes.area({l1}: 2, {l2}: {l1})\n  let b = shapes.area({l2}: 1, {l1}: a)\n"
+           f"  let r = shapes.Rect({l1}: a, {l2}: b)\n  let s = shapes.grow(r, by: 2)\n  let shapes.Rect({l1}: p, ..) = s\n"
+           f"  case r {{\n    shapes.Rect({l2}: q, {l1}: _) -> q\n    shapes.Square({l1}: q) -> q\n  }}\n  shapes.Rect(..r, {l2}: p).{l2}\n}}\n"
+           + rng.choice(["", f"\npub fn half() {{\n  shapes.area({l1}: )\n}}\n", f"\npub fn half() {{\n  shapes.area({l1}\n}}\n", f"\npub fn unknown() {{\n  shapes.area(nope: 1, {l1}: 2)\n}}\n"]))
+    return [("/w/p/src/shapes.gleam", shapes), ("/w/p/src/app.gleam", app), ("/w/p/gleam.toml", 'name = "p"\n')]
 
 
 def ill_typed_workspace(rng):
